@@ -80,11 +80,13 @@ CLAIMS = {
  },
  'C01': {
   'category': 'proof',
-  'technique': 'Lean 4 proof that the scanner model never reaches a panic site (any state, any input) + child-process execution of general streams and ~45 deep/long families in debug and release + model correspondence on outcome class',
-  'text': 'nextToken_no_panic: for every scanner state, next_token returns a token, EOF or an error value - all indexing sites of scanner.rs and the usize subtraction of line_info are unreachable out of range (no bound on input). '
-          'The parser half is decided on the real process: every case runs in a child on the default 8 MiB stack in debug and release builds with a time limit; general streams (corpus, mutants, soup, UTF-8 soup, fuzz inputs; from memory and from disk; parse + Debug + drop) must answer, and the model must agree on ok/error/panic; '
+  'technique': 'Lean 4 proof (Hoare logic over the parser monad, induction on the recursion fuel) that the scanner and the whole parser model never reach a panic site from any of the three entry points, for every input + child-process execution of general streams and ~45 deep/long families in debug and release + model correspondence on outcome class',
+  'text': 'entry_points_no_panic (Props/Hoare*.lean): for every text, either build profile and any fuel, parse_file / expression / parse_stmt of the model return a tree or an error value; every panic site that the model carries is dead: '
+          'the 9 indexing sites of scanner.rs and the usize subtraction of line_info (nextToken_no_panic, any scanner state), goback`s unwrap (marks are positions from which scanning succeeded), extract lost, the three unwrap/unreachable sites behind parse_slice_index_or_type_inst, name.pop()/id_list.pop(), the two unreachable!() of parse_for_stmt, parse_decl`s, and Expression::pos on List (unimplemented!). '
+          'The proof is a specification per production (TblOK: no panic + the result shapes the sites rely on), one lemma per production body given the table, and induction on the fuel (tblOK); second_call_no_panic covers repeated calls on one parser. '
+          'What the model cannot exhibit is decided on the real process: every case runs in a child on the default 8 MiB stack in debug and release builds with a time limit; general streams (corpus, mutants, soup, UTF-8 soup, fuzz inputs; from memory and from disk; parse + Debug + drop) must answer, and the model must agree on ok/error/panic; '
           'deep/long families of every recursive or iterative construct at depths 1..10^4 (10^5 thorough) must answer. The property is FALSE of the code for uncounted recursion (K3), Debug/Drop of left-deep trees (K4) and an exponential re-parse (K5): each is a listed known finding per family; any other family or input that kills the process, panics or times out is a violation. Partial proof.',
-  'note': 'The model has no stack model (frames are not bytes): stack exhaustion and time are observed on the real process only. A whole-parser no-panic theorem over the parser model is not yet proved.',
+  'note': 'The model has no stack model (frames are not bytes) and bounds recursion by fuel: stack exhaustion and running time are observed on the real process only. The theorem is about the hand-written model; its tie to parser.rs is the correspondence on outcome class (ok / error / panic site) over every stream.',
  },
  'C18': {
   'category': 'proof',
